@@ -24,6 +24,11 @@ var (
 	tFilterOpts = ty{lean: "Trans.FilterOpts"}
 	tPtrSet     = ty{lean: "List Nat", kind: "ptrset"}
 	tIndexOpts  = ty{lean: "IndexSig.Opts"}
+	tUserCfg    = ty{lean: "Accounts.UserCfg"}
+	tGroupCfg   = ty{lean: "Accounts.GroupCfg"}
+	tUser       = ty{lean: "Formats.User"}
+	tGroup      = ty{lean: "Formats.Group"}
+	tOptNat     = ty{lean: "Option Nat", kind: "opt", elem: &tNat}
 	tGrp        = ty{lean: "Layers.Grp"}
 	tLPkg       = ty{lean: "Layers.LPkg"}
 )
@@ -44,6 +49,11 @@ func transTablesFor(versionConsts map[string]int64) *transTables {
 			"*filterOptions":                tFilterOpts,
 			"*indexOpts":                    tIndexOpts,
 			"*group":                        tGrp,
+			"types.User":                    tUserCfg, // passed by value
+			"types.Group":                   tGroupCfg,
+			"passwd.UserEntry":              tUser,
+			"passwd.GroupEntry":             tGroup,
+			"[]passwd.GroupEntry":           listOf(tGroup),
 			"*apk.Package":                  tLPkg,
 		},
 		fields: map[fieldKey]fieldVal{
@@ -65,6 +75,25 @@ func transTablesFor(versionConsts map[string]int64) *transTables {
 			{"Layers.Grp", "size"}:                  {".size", tNat},
 			{"Layers.Grp", "tiebreaker"}:            {".tb", tText},
 			{"Layers.LPkg", "Name"}:                 {".name", tText},
+			{"Accounts.UserCfg", "UserName"}:        {".name", tText},
+			{"Accounts.UserCfg", "UID"}:             {".uid", tNat},
+			{"Accounts.UserCfg", "GID"}:             {".gid", tOptNat},
+			{"Accounts.UserCfg", "Shell"}:           {".shell", tText},
+			{"Accounts.UserCfg", "HomeDir"}:         {".home", tText},
+			{"Accounts.GroupCfg", "GroupName"}:      {".name", tText},
+			{"Accounts.GroupCfg", "GID"}:            {".gid", tNat},
+			{"Accounts.GroupCfg", "Members"}:        {".members", listOf(tText)},
+			{"Formats.User", "UserName"}:            {".name", tText},
+			{"Formats.User", "Password"}:            {".password", tText},
+			{"Formats.User", "UID"}:                 {".uid", tNat},
+			{"Formats.User", "GID"}:                 {".gid", tNat},
+			{"Formats.User", "Info"}:                {".info", tText},
+			{"Formats.User", "HomeDir"}:             {".home", tText},
+			{"Formats.User", "Shell"}:               {".shell", tText},
+			{"Formats.Group", "GroupName"}:          {".name", tText},
+			{"Formats.Group", "Password"}:           {".password", tText},
+			{"Formats.Group", "GID"}:                {".gid", tNat},
+			{"Formats.Group", "Members"}:            {".members", listOf(tText)},
 			{"Trans.FilterOpts", "compare"}:         {".compare", tDep},
 			{"Pkg.repository", "URI"}:               {".repo", tText},
 			{"Version", "numbers"}:                  {".numbers", listOf(tNat)},
@@ -139,6 +168,10 @@ func transFiles() []transFile {
 			// the two comparators handed to slices.SortFunc at the end of groupByOriginAndSize
 			{file: "pkg/build/layers.go", fn: "groupByOriginAndSize", lean: "groupCmp", lit: 1},
 			{file: "pkg/build/layers.go", fn: "groupByOriginAndSize", lean: "pkgCmp", lit: 2},
+		}},
+		{out: "TransAccounts", imports: []string{"Apko.Model.Accounts", "Apko.Model.TransPrelude"}, prefix: "accounts.go", targets: []transTarget{
+			{file: "pkg/build/accounts.go", fn: "userToUserEntry", lean: "userToUserEntry"},
+			{file: "pkg/build/accounts.go", fn: "appendGroup", lean: "appendGroup"},
 		}},
 		{out: "TransConfine", imports: []string{"Apko.Model.Confine", "Apko.Model.TransPrelude"}, prefix: "common.go", targets: []transTarget{
 			{file: commonGo, fn: "isWithin", lean: "isWithinApk"},
